@@ -37,13 +37,19 @@ def analyse(script):
         problems.append("unbalanced '(' at end of script (%d open)" % depth)
     # 2./3. labels
     labels = {}
+    spellings = {}
     for i, ln in enumerate(lines):
         m = re.match(r"^:([A-Za-z0-9_]+)\s*$", ln)
         if m and not ln.startswith("::"):
             labels.setdefault(m.group(1).lower(), []).append(i)
+            spellings.setdefault(m.group(1).lower(), set()).add(m.group(1))
     for l, where in labels.items():
         if len(where) > 1:
-            problems.append("label :%s defined %d times (lines %s)" % (l, len(where), [w + 1 for w in where]))
+            # cmd.exe compares labels without regard to case: two spellings of one label are one label
+            note = ""
+            if len(spellings[l]) == len(where):
+                note = " [spellings differ only in case: %s]" % ", ".join(sorted(spellings[l]))
+            problems.append("label :%s defined %d times (lines %s)%s" % (l, len(where), [w + 1 for w in where], note))
     targets = []
     for i, ln in enumerate(lines):
         for m in re.finditer(r"\bgoto\s+:?([A-Za-z0-9_]+)", ln):
